@@ -16,6 +16,63 @@ FORBIDDEN = {ord("<"): "<", ord(">"): ">", ord("&"): "&", ord("'"): "'"}
 SAFE = "minijinja::value::Value::from_safe_string"
 
 
+
+
+def _clean_piece_of_a_split(f, c, forbidden):
+    """`buf.push_str(&rest[..idx])` with `Some(idx) = rest.find(PATTERN)`, or `buf.push_str(rest)` where
+    `rest.find(PATTERN)` just returned None: the piece holds none of PATTERN's characters, and PATTERN lists every
+    forbidden one"""
+    finds = [k for k in f.calls() if k.name == "core::str::<impl str>::find" and len(k.args) > 1
+             and set(forbidden) <= flow.const_char_set(f, k.args[1])]
+    if not finds:
+        return False
+    arg = c.args[1]
+
+    def base_local(op):
+        ls = set()
+        for o in flow.origins(f, op, through_calls=lambda k: None):
+            pass
+        p = op_place(op)
+        seen = 0
+        while p is not None and seen < 8:
+            seen += 1
+            ds = [d for d in flow.whole_defs(f, p["l"]) if d.kind == "stmt"]
+            if len(ds) == 1 and ds[0].rv["k"] in ("ref", "use"):
+                q = ds[0].rv.get("place") or op_place(ds[0].rv.get("op", {}))
+                if q is None:
+                    break
+                if len(flow.whole_defs(f, q["l"])) > 1 or q["l"] <= f.argc:
+                    return q["l"]
+                p = q
+            else:
+                break
+        return p["l"] if p is not None else None
+    for o in flow.origins(f, arg):
+        ok = False
+        if o.kind == "call" and o.call.name.endswith("Index<I> for str>::index") and len(o.call.args) > 1:
+            # rest[..idx]
+            for r in flow.origins(f, o.call.args[1]):
+                if r.kind == "agg" and (r.rv.get("adt") or "").endswith("range::RangeTo") and r.rv["ops"]:
+                    for e in flow.origins(f, r.rv["ops"][0]):
+                        if e.kind == "call" and e.call in finds and base_local(e.call.args[0]) == base_local(o.call.args[0]) \
+                                and cfg.dominates(f, e.call.bb, c.bb):
+                            ok = True
+        if not ok:
+            # the rest itself, on the None side of the search
+            b = base_local(arg)
+            for k in finds:
+                if base_local(k.args[0]) != b or k.dest is None:
+                    continue
+                sp = errflow.result_split(f, k.dest["l"]) if "p" not in k.dest else None
+                for (sb, none_t, some_t, other, adt) in (sp.switches if sp else []):
+                    starts = set(none_t or {other})
+                    if starts and all(cfg.dominates(f, st_, c.bb) for st_ in starts):
+                        ok = True
+        if not ok:
+            return False
+    return True
+
+
 def check_char_filter(ctx, prog, f, rule, label, forbidden, safe=SAFE):
     """f: function/closure that builds a String char by char; returns True when structurally filtered"""
     safe_calls = f.calls_to(safe)
@@ -48,9 +105,14 @@ def check_char_filter(ctx, prog, f, rule, label, forbidden, safe=SAFE):
                 if nm == "alloc::string::String::push_str":
                     s = flow.const_str(c.args[1], f)
                     if s is None:
-                        for o in flow.origins(f, c.args[1]):
-                            if o.kind == "const":
-                                s = flow.const_str({"c": o.const}, f)
+                        # one of several constants (`push_str(match b { b'<' => "..", .. })`): all of them are checked
+                        cs_ = [flow.const_str({"c": o.const}, f) if o.kind == "const" else None for o in flow.origins(f, c.args[1])]
+                        if cs_ and all(x is not None for x in cs_):
+                            s = "".join(cs_)
+                    if s is None and _clean_piece_of_a_split(f, c, forbidden):
+                        ctx.ob(rule + ".replacement-is-clean", "%s|push_str(<piece before the next forbidden character>)" % label, True,
+                               "", f.where(c.bb))
+                        continue
                     bad = s is None or any(ch in s for ch in forbidden.values())
                     ctx.ob(rule + ".replacement-is-clean", "%s|push_str(%r)" % (label, s), not bad,
                            "replacement text %r contains a forbidden character (or is not a constant)" % s, f.where(c.bb))
@@ -288,9 +350,19 @@ def check_handle_registry(ctx, prog, tag):
         return
     PROD = "<minijinja::value::Value as serde_core::ser::Serialize>::serialize"
     CONS = "<minijinja::value::serialize::SerializeTupleStruct as serde_core::ser::SerializeTupleStruct>::end"
+    def owned_by(g, allowed, depth=3):
+        """g is the allowed function, a closure of it, or a crate-private helper that only such functions call"""
+        root = g.root or g.path
+        if root == allowed or g.path.startswith(allowed):
+            return True
+        rf = prog.fns.get(root)
+        if rf is None or rf.is_pub or depth <= 0:
+            return False
+        sites = prog.callers().get(root, [])
+        return bool(sites) and all(owned_by(c.fn, allowed, depth - 1) for c in sites)
     for op, allowed in (("insert", PROD), ("remove", CONS)):
         fs = users.get(op, [])
-        ctx.ob("C16.T6.handle-registry-%s-site" % op, tag + op, bool(fs) and all((g.root or g.path) == allowed or g.path.startswith(allowed) for g in fs),
+        ctx.ob("C16.T6.handle-registry-%s-site" % op, tag + op, bool(fs) and all(owned_by(g, allowed) for g in fs),
                "ValueHandleRegistry::%s is called from %s; expected only %s: an entry removed by anyone but the consumer "
                "that resolves the handle is missing when a buffering serializer replays the marker" % (
                    op, sorted({g.path for g in fs}), allowed), fs[0].loc if fs else "")
@@ -351,7 +423,11 @@ def run(ctx):
                f.loc)
         n = 0
         for b in builders:
-            ok, k = check_char_filter(ctx, prog, b, "C16.T1", tag + b.path.split("::")[-1], FORBIDDEN)
+            # read through a private helper the filter loop may have been moved into
+            from .. import inline
+            bv = inline.view(prog, b, keep=("from_safe_string", "push", "push_str", "with_capacity", "new", "find", "index", "chars", "next",
+                                            "serialize_json", "len", "as_bytes"))
+            ok, k = check_char_filter(ctx, prog, bv, "C16.T1", tag + b.path.split("::")[-1], FORBIDDEN)
             n += k
             # the closure is applied to the Ok value of serialize_json on every path: f's return flows from
             # Result::map(closure)
